@@ -5,6 +5,7 @@ pub mod c11;
 pub mod c13;
 pub mod c14;
 pub mod c15;
+pub mod c16;
 pub mod c17;
 pub mod c20;
 
@@ -27,6 +28,7 @@ pub const PROPS: &[PropDef] = &[
     PropDef { id: "C13", level: "exploration", run: c13::run, shards: 12, isolate: true },
     PropDef { id: "C14", level: "exploration", run: c14::run, shards: 12, isolate: true },
     PropDef { id: "C15", level: "exploration", run: c15::run, shards: 12, isolate: true },
+    PropDef { id: "C16", level: "fault_enumeration", run: c16::run, shards: 1, isolate: false },
     PropDef { id: "C17", level: "exploration", run: c17::run, shards: 12, isolate: false },
     PropDef { id: "C20", level: "exploration", run: c20::run, shards: 8, isolate: false },
 ];
